@@ -320,3 +320,58 @@ func Verif_C11_MultiKey_NoPartialWrite() {
 	}
 	vsym.Reach("end")
 }
+
+// Boundary integers: every argument position of every write command takes each of these spellings once
+// (the other arguments are "1"): overflow of offset/length/count arithmetic must not panic on apply.
+var c11WideInts = []string{"9223372036854775807", "-9223372036854775808", "9223372036854775808", "4294967296", "2147483648", "-2147483649", "18446744073709551615", "536870912"}
+
+func Verif_C11_BoundaryIntegers_NoPanic() {
+	vsym.FreezeClock(int64(1700000200) * 1e9)
+	e := c11Open()
+	defer e.done()
+	name := c11Cmds[vsym.Choose("cmd", len(c11Cmds))]
+	key := []byte("t:k")
+	c11Prestate(e, key)
+	argc := 1 + vsym.Choose("argc", 3) // 1..3 arguments after the key
+	pos := vsym.Choose("widepos", 3)
+	wide := c11WideInts[vsym.Choose("wideval", len(c11WideInts))]
+	args := [][]byte{[]byte(name), append([]byte("ns:"), key...)}
+	for i := 0; i < argc; i++ {
+		if i == pos {
+			args = append(args, []byte(wide))
+		} else {
+			args = append(args, []byte("1"))
+		}
+	}
+	c11Proposed = nil
+	var raw []byte
+	if vsym.Symbolic() {
+		h, ok := e.nd.router.GetWCmdHandler(name)
+		vsym.Assert(ok, "command is registered on the leader side")
+		h(common.BuildCommand(args))
+		if len(c11Proposed) > 0 {
+			raw = c11Proposed[0]
+		}
+	}
+	if !vsym.NoteBool("proposed", len(c11Proposed) > 0) {
+		vsym.Reach("rejected")
+		vsym.Reach("end")
+		return
+	}
+	if !vsym.Symbolic() {
+		cut := append([][]byte{}, args...)
+		cut[1] = key
+		raw = common.BuildCommand(cut).Raw
+	}
+	req := BatchInternalRaftRequest{ReqNum: 1, Timestamp: int64(1700000100) * 1e9,
+		Reqs: []InternalRaftRequest{{Header: RequestHeader{ID: 1, DataType: int32(RedisReq)}, Data: raw}}}
+	batch := &kvbatchOperator{kvsm: e.sm, dupCheckMap: map[string]bool{}}
+	_, err := e.sm.ApplyRaftRequest(false, batch, req, 1, 1, nil)
+	batch.CommitBatch()
+	vsym.Assert(err == nil, "apply returns no fatal error")
+	if vsym.Symbolic() {
+		vsym.Assert(e.vdb.PendingBatchOps() == 0, "nothing is left in the shared write batch after the command")
+	}
+	vsym.Reach("applied")
+	vsym.Reach("end")
+}
